@@ -16,7 +16,7 @@ NAME = "clocksim"
 SIM_UNIT = "clock ticks"
 BUDGET = {"quick": {"runs": 30000, "wall": 80}, "thorough": {"runs": 150000, "wall": 1200}}
 SHRINK_LISTS = ("ops",)
-PROBES = {"C15": ["custom-forward", "ltv-property-only", "refpoint-same-state-new-time", "jump-back", "jump-forward", "jump-tensor", "reset-nonzero", "refpoint-default",
+PROBES = {"C15": ["deepcopy-continue", "lti:broadcast-constants", "custom-forward", "ltv-property-only", "refpoint-same-state-new-time", "jump-back", "jump-forward", "jump-tensor", "reset-nonzero", "refpoint-default",
                   "refpoint-explicit", "read-after-call-since-refpoint", "read-after-jump-since-refpoint",
                   "ltv-wrap", "batched-lti", "float-reftime"]}
 TOL = 1e-10
@@ -28,10 +28,10 @@ def generate(seed, tier, prop="C15"):
     cfg = {"kind": kind, "n": r.randint(1, 4), "m": r.randint(1, 3), "q": r.randint(1, 4), "h": r.randint(2, 4),
            "batch": r.choice([0, 0, 1, 2, 3]) if kind != "NLS" else 0, "Tn": r.randint(1, 6),
            "c1": r.random() < 0.7, "c2": r.random() < 0.7, "omega": round(r.uniform(0.1, 1.5), 3),
-           "wrap": r.random() < 0.3, "variant": r.choice(["plain", "plain", "custom-forward", "prop-only"])}
+           "wrap": r.random() < 0.3, "cbroad": r.random() < 0.2, "variant": r.choice(["plain", "plain", "custom-forward", "prop-only"])}
     ro = rng.stream(seed, "ops")
     n_ops = ro.randint(2, 40 if tier == "thorough" else 25)
-    w = {"call": 5, "read": 3, "readtime": 1, "reset": ro.choice([0, 1, 2]), "settime": ro.choice([0, 1, 2]),
+    w = {"call": 5, "read": 3, "readtime": 1, "deepcopy": ro.choice([0, 0, 1]), "reset": ro.choice([0, 1, 2]), "settime": ro.choice([0, 1, 2]),
          "setref": ro.choice([1, 2]) if kind != "LTI" else 0, "setref_default": ro.choice([0, 1, 2]) if kind == "NLS" else 0,
          "setref_same": ro.choice([0, 1, 1]) if kind == "NLS" else 0}
     names = [k for k in w if w[k] > 0]
@@ -62,7 +62,7 @@ def brief(plan):
 def simplify(plan):
     c = plan["config"]
     cands = []
-    for k, v in (("n", 1), ("m", 1), ("q", 1), ("h", 2), ("batch", 0), ("c1", False), ("c2", False), ("Tn", 2), ("variant", "plain")):
+    for k, v in (("n", 1), ("m", 1), ("q", 1), ("h", 2), ("batch", 0), ("c1", False), ("c2", False), ("Tn", 2), ("variant", "plain"), ("cbroad", False)):
         if c.get(k) != v:
             cands.append({**plan, "config": dict(c, **{k: v})})
     for i, o in enumerate(plan["ops"]):
@@ -139,16 +139,17 @@ class GenNLS(pp.module.NLS):
         self.omega = P["omega"]
 
     def state_transition(self, x, u, t=None):
+        # written with x @ W^T so that it also accepts a stack of states (sigma points, particles)
         P = self.P
         tt = torch.as_tensor(t).to(torch.float64).reshape(-1)[0]
-        z = P["W2"] @ x + P["W3"] @ u + P["b"] * torch.sin(self.omega * tt)
-        return P["W1"] @ torch.tanh(z) + P["W4"] @ x + P["W5"] @ u + P["c"] * torch.cos(self.omega * tt)
+        z = x @ P["W2"].mT + u @ P["W3"].mT + P["b"] * torch.sin(self.omega * tt)
+        return torch.tanh(z) @ P["W1"].mT + x @ P["W4"].mT + u @ P["W5"].mT + P["c"] * torch.cos(self.omega * tt)
 
     def observation(self, x, u, t=None):
         P = self.P
         tt = torch.as_tensor(t).to(torch.float64).reshape(-1)[0]
-        z = P["V2"] @ x + P["V3"] @ u + P["e"] * 0.1 * tt
-        return P["V1"] @ torch.tanh(z) + P["V4"] @ x + P["V5"] @ u + 0.5 * P["V6"] @ (x * x)
+        z = x @ P["V2"].mT + u @ P["V3"].mT + P["e"] * 0.1 * tt
+        return torch.tanh(z) @ P["V1"].mT + x @ P["V4"].mT + u @ P["V5"].mT + 0.5 * (x * x) @ P["V6"].mT
 
 
 def nls_params(seed, n, m, q, h, omega):
@@ -215,6 +216,14 @@ def execute(plan, prop, out, tr):
                 "c1": rng.randn(s, ("c1",), bs + st + (n,), dt) if c["c1"] else None,
                 "c2": rng.randn(s, ("c2",), bs + st + (q,), dt) if c["c2"] else None}
         var = c.get("variant", "plain")
+        if kind == "LTI" and c.get("cbroad") and not bs:
+            # constants with a broader batch shape than A x + B u: the sum broadcasts
+            Bd = 3
+            if mats["c1"] is not None:
+                mats["c1"] = rng.randn(s, ("c1b",), (Bd, n), dt)
+            if mats["c2"] is not None:
+                mats["c2"] = rng.randn(s, ("c2b",), (Bd, q), dt)
+            out.probe("lti:broadcast-constants")
         if kind == "LTI":
             cls = custom_forward(pp.module.LTI) if var == "custom-forward" else pp.module.LTI
             sysm = cls(*[mats[k] for k in ("A", "B", "C", "D", "c1", "c2")])
@@ -243,6 +252,7 @@ def execute(plan, prop, out, tr):
         return res
 
     clock = 0
+    retired = []            # systems that were deep-copied away, with the clock value they must keep
     handed = []             # (tensor handed to the system as a time, its value then, op id): callers' tensors stay theirs
     last_xu = None
     ref = None              # (x*, u*, t*) as values
@@ -276,6 +286,13 @@ def execute(plan, prop, out, tr):
             calls_since_ref += 1
             out.sim_time += 1
             tr.ev("call", i, xn, y)
+        elif op == "deepcopy":
+            # snapshot of the system (a look-ahead copy): the copy carries on, the original must stay where it was
+            import copy as _copy
+            orig_sys, orig_clock = sysm, clock
+            sysm = _copy.deepcopy(sysm)
+            retired.append((orig_sys, orig_clock))
+            out.probe("deepcopy-continue")
         elif op == "reset":
             if o["t"] == 0 and o["id"] % 2 == 0:
                 sysm.reset()
@@ -370,6 +387,10 @@ def execute(plan, prop, out, tr):
                 raise Violation("C15.mutation", "after op %s (#%d): the tensor passed as a time at op #%d now holds %s, the "
                                 "caller gave %s (the system clock aliases the caller's tensor)" % (op, i, oid, tt.tolist(), val.tolist()),
                                 i, "mutation:time-arg")
+        for osys, oclk in retired:
+            if int(osys.systime) != oclk:
+                raise Violation("C15.clock", "after op %s (#%d) on a deep copy, the ORIGINAL system's time moved from %d to %d"
+                                % (op, i, oclk, int(osys.systime)), i, "clock:deepcopy-original")
         # after every operation: the clock
         st = sysm.systime
         if not (torch.is_tensor(st) and st.numel() == 1 and int(st) == clock):
